@@ -45,6 +45,22 @@ def run (j : Json) : R Json := do
     let (outs, c') := runOps c ops
     pure (Json.mkObj ([("init", Json.str "ok"), ("outcomes", jstrs outs)] ++ jchain c'))
 
+/-- op `C13.fill`: constructor, a column added with `fill_default_array`, then a history of rescale calls -/
+def fill (j : Json) : R Json := do
+  let ps ← paramsOf (← field j "params")
+  let rescale ← getBool j "rescale"
+  let k ← (← field j "name").getStr?
+  let v ← fls (← field j "values")
+  let ops ← (← strs (← field j "ops")).mapM opOf
+  match init ps rescale with
+  | .error e => pure (Json.mkObj [("init", Json.str e)])
+  | .ok c =>
+    match fillArray c k v with
+    | .error e => pure (Json.mkObj [("init", Json.str "ok"), ("fill", Json.str e)])
+    | .ok c1 =>
+      let (outs, c') := runOps c1 ops
+      pure (Json.mkObj ([("init", Json.str "ok"), ("fill", Json.str "ok"), ("outcomes", jstrs outs)] ++ jchain c'))
+
 /-- op `C13.vec`: the two vector helpers -/
 def vec (j : Json) : R Json := do
   let cols ← flss (← field j "cols")
@@ -87,6 +103,6 @@ def planck (j : Json) : R Json := do
     | .ok c => pure (Json.mkObj (base ++ [("init", Json.str "ok")] ++ jchain c))
 
 def ops : List (String × (Json → R Json)) :=
-  [("C13.run", run), ("C13.vec", vec), ("C13.point", point), ("C13.planck", planck)]
+  [("C13.run", run), ("C13.fill", fill), ("C13.vec", vec), ("C13.point", point), ("C13.planck", planck)]
 
 end HierArc.Drv.C13
